@@ -598,3 +598,38 @@ def r06j(ctx):
         ctx.ok(cid, merge.module.loc(fn), "unknown divisions on the broadcast-join path")
     else:
         ctx.bad(cid, merge.module.loc(badret.stmt), f"on the broadcast-join path Merge._divisions returns `{unparse(badret.stmt.value)}`: a broadcast join concatenates the merges with every partition of the broadcast side, the rows of a partition are not sorted and for a join on columns the index is a fresh RangeIndex - the copied divisions make repartition / loc / align drop rows")
+
+
+# operators that REPLACE the index of their frame: parameter that carries the new index
+R06K_INDEX_REPLACING = {
+    "_expr.AssignIndex": "value",
+}
+
+
+@rule(
+    "R06k",
+    ["C06"],
+    """AN OPERATOR THAT REPLACES THE INDEX NEVER REPORTS THE OLD INDEX'S DIVISIONS: after `df.index = new_index` the rows are labelled
+    by `new_index`; the divisions of the frame describe labels that are gone. `_divisions` of an index-replacing operator (confirmed
+    table) may only be derived from the operand that carries the new index - if that operand has unknown divisions, so has the result.
+    Falling back to `self.frame.divisions` claims ranges the new labels need not lie in.""",
+)
+def r06k(ctx):
+    model = ctx.model
+    n = 0
+    for q, param in sorted(R06K_INDEX_REPLACING.items()):
+        c = next((k for k in model.expr_classes() if k.qual == q), None)
+        if c is None:
+            raise AnalysisError(f"anchor vanished: index-replacing operator {q}")
+        dv = c.provider("_divisions")
+        n += 1
+        cid = f"{q}._divisions:from-new-index"
+        rets = [r.value for r in ast.walk(dv.node) if isinstance(r, ast.Return) and r.value is not None]
+        old = [r for r in rets if "self.frame" in ast.unparse(r)]
+        if dv.cls is not c and not dv.cls.is_sub(c):
+            ctx.bad(cid, c.loc, f"{q} no longer defines its own _divisions: it inherits {dv.cls.qual}._divisions, which answers for the frame's old index")
+        elif old:
+            ctx.bad(cid, dv.cls.module.loc(old[0]), f"{q}._divisions returns `{unparse(old[0])}`: the divisions of the frame belong to the index that is being replaced; with a new index of unknown divisions the result must be unknown too, otherwise loc / align / repartition trust ranges the new labels do not lie in")
+        else:
+            ctx.ok(cid, dv.cls.module.loc(dv.node), f"divisions come from self.{param} only")
+    ctx.floor("index-replacing operators", n, 1)
